@@ -468,9 +468,9 @@ pub fn check(ctx: &mut Ctx) {
     run_indexed(ctx, "exhaustive", n, &|i| nth_pattern(i, max_len).map(|p| PatCase { pattern: p, urls: vec![] }), &check_pat);
     ctx.exhaustive = false; // only the sub-check "exhaustive" is; see coverage.exhaustive_part
     ctx.extra.insert("exhaustive_part".into(), json!({"patterns_enumerated": n, "max_body_len": max_len, "alphabet": "ab./*^", "urls": universe().len()}));
-    let n = ctx.tier.pick(60_000, 3_000_000);
+    let n = ctx.tier.pick(200_000, 3_000_000);
     drive(ctx, "random", n, 300, &decode_random, &check_pat);
-    let n = ctx.tier.pick(30_000, 1_000_000);
+    let n = ctx.tier.pick(100_000, 1_000_000);
     drive(ctx, "regex", n, 200, &decode_regex, &check_regex);
 }
 
